@@ -1,5 +1,6 @@
 import SplinkVerif.Lemmas.Score
 import SplinkVerif.Generated.Arith
+import SplinkVerif.Lemmas.ArithBridge
 /-!
 # C02 — scores follow the Fellegi–Sunter formula with the model's parameters
 
@@ -150,6 +151,34 @@ theorem threshold_args_weight_applied {β : Type} [ANum β] (p w : β) :
   refine ⟨rfl, ?_, rfl, rfl⟩
   simp only [Gen.threshold_args_to_match_weight, Gen.prob_to_match_weight, Gen.prob_to_bayes_factor,
     Option.isSome_some, Option.isSome_none, Bool.and_false, Bool.false_eq_true, if_false, Option.getD_some]
+
+/-! ## The probability/odds/weight helpers (translated source) are the model's arithmetic -/
+
+/-- The prior factor that `predict` inlines into its SQL is computed by the Python helper `prob_to_bayes_factor`
+(translated source, regenerated every run); for every prior other than 1 it is the model's `priorOdds`. -/
+theorem prior_factor_translated (p : ℝ) (hp : p ≠ 1) :
+    Gen.prob_to_bayes_factor p = some (Score.priorOdds p) :=
+  Lemmas.ArithBridge.prior_factor_translated p hp
+
+/-- … and the match weight the helpers report for a probability is `log2` of those odds. -/
+theorem prob_to_match_weight_translated (p : ℝ) (hp : p ≠ 1) :
+    Gen.prob_to_match_weight p = some (Real.logb 2 (p / (1 - p))) :=
+  Lemmas.ArithBridge.prob_to_match_weight_translated p hp
+
+/-- weight -> probability used by the threshold helpers (`bayes_factor_to_prob (match_weight_to_bayes_factor w)`,
+translated source): `2^w / (1 + 2^w)`. -/
+theorem weight_to_prob_translated (w : ℝ) :
+    (Gen.match_weight_to_bayes_factor w).bind Gen.bayes_factor_to_prob = some ((2:ℝ)^w / (1 + (2:ℝ)^w)) :=
+  Lemmas.ArithBridge.weight_to_prob_translated w
+
+/-- That map is strictly increasing in `w`: a match-weight threshold is equivalent to its probability. -/
+theorem weight_to_prob_strictMono : StrictMono fun w : ℝ => (2:ℝ)^w / (1 + (2:ℝ)^w) :=
+  Lemmas.ArithBridge.weight_to_prob_strictMono
+
+/-- … and its values lie strictly between 0 and 1. -/
+theorem weight_to_prob_bounds (w : ℝ) :
+    0 < (2:ℝ)^w / (1 + (2:ℝ)^w) ∧ (2:ℝ)^w / (1 + (2:ℝ)^w) < 1 :=
+  Lemmas.ArithBridge.weight_to_prob_pos_lt_one w
 
 /-- Non-vacuity (logic part, evaluated): null level, exact level, else level; a
 NULL condition on the exact level falls through to ELSE. -/
